@@ -389,3 +389,8 @@ CORPUS = [
 ]
 
 PROP = Prop()
+
+import parts  # noqa: E402
+import parts_misc  # noqa: E402
+
+parts.attach(PROP, parts_misc.NODEMISC)   # Node/Tree miscellany (model Forest/MiscNode.v, theorems at the end of Properties/C10.v)
